@@ -58,6 +58,8 @@ type VerifC51Scenario struct {
 	WithCache bool // Manager.Cache = in-memory cache (else nil)
 	Policy    bool // HostPolicy = HostWhitelist(Domain)
 	Domain    string
+	Names     []string // ServerName per caller (spellings of Domain); nil: Domain for everybody
+	Preload   bool     // WithCache only: another Manager has already obtained and cached the certificate
 }
 
 // VerifC51Result is the observation of one execution (no key material or time-dependent
@@ -74,6 +76,7 @@ type VerifC51Result struct {
 	Requests      int
 	CachePuts     []string
 	RenewalTimers int
+	PreOrders     int // new-order requests made by the preloading Manager
 }
 
 var verifC51Hello = tls.ClientHelloInfo{
@@ -98,11 +101,27 @@ func VerifC51Concurrent(sc VerifC51Scenario) *VerifC51Result {
 	if sc.Policy {
 		m.HostPolicy = HostWhitelist(sc.Domain)
 	}
+	preOrders := 0
+	if sc.Preload && cache != nil {
+		m0 := &Manager{Prompt: AcceptTOS, Client: m.Client, Cache: cache}
+		hello := verifC51Hello
+		hello.ServerName = sc.Domain
+		if _, err := m0.GetCertificate(&hello); err != nil {
+			return &VerifC51Result{Problems: []string{"preload failed: " + err.Error()}}
+		}
+		verifWaitIdle()
+		m0.stopRenew()
+		preOrders = ca.NewOrders[sc.Domain]
+		m.Client = &acme.Client{DirectoryURL: verifC51CAURL + "/directory", HTTPClient: &http.Client{Transport: ca}}
+	}
 	certs := make([]*tls.Certificate, sc.Callers)
 	errs := make([]error, sc.Callers)
 	call := func(i int) {
 		hello := verifC51Hello
 		hello.ServerName = sc.Domain
+		if i < len(sc.Names) {
+			hello.ServerName = sc.Names[i]
+		}
 		certs[i], errs[i] = m.GetCertificate(&hello)
 	}
 	var wg sync.WaitGroup
@@ -119,7 +138,7 @@ func VerifC51Concurrent(sc VerifC51Scenario) *VerifC51Result {
 	verifWaitIdle()
 
 	res := &VerifC51Result{Errors: make([]string, sc.Callers), NewOrders: ca.NewOrders, Accounts: ca.Accounts, Issued: len(ca.Issued),
-		CABad: ca.Bad, Requests: len(ca.Log), IssuedByCA: true}
+		CABad: ca.Bad, Requests: len(ca.Log), IssuedByCA: true, PreOrders: preOrders}
 	leaves := map[string]bool{}
 	now := time.Now()
 	for i := range certs {
